@@ -987,7 +987,8 @@ class Device(device.Device):
         kwargs = {
             'guard_time': 500,
             'transmit_data': data,
-            'recv_timeout': 0xFFFF if timeout is None else int(timeout*1E3),
+            'recv_timeout': (0xFFFF if timeout is None else
+                             min(int(timeout*1E3), 0xFFFF)),
         }
         try:
             data = self.chipset.tg_comm_rf(**kwargs)
